@@ -654,28 +654,7 @@ func TestC10(t *testing.T) {
 				}
 			},
 			// the owner of a pillar revokes it inside (or just before / after) its revoke window
-			"timedRevoke": func() {
-				list, err := definition.GetPillarsList(h.A.Chain.GetFrontierAccountStore(types.PillarContract).Storage(), true, definition.AnyPillarType)
-				if err != nil || len(list) == 0 {
-					return
-				}
-				p := list[c.Pick("tr.idx", len(list))]
-				if h.W.Keys.ByAddr[p.StakeAddress] == nil {
-					return
-				}
-				cycle := constants.PillarEpochLockTime + constants.PillarEpochRevokeTime
-				el := (h.A.Frontier().Timestamp.Unix() - p.RegistrationTime) % cycle
-				if el < constants.PillarEpochLockTime {
-					// slots of 10 s up to the window, plus a drawn offset that can overshoot it
-					skip := int((constants.PillarEpochLockTime-el)/10) + c.Int("tr.offset", -2, 3)
-					if skip < 0 {
-						skip = 0
-					}
-					h.Produce(skip)
-				}
-				h.ActCall(p.StakeAddress, types.PillarContract, types.ZnnTokenStandard, big.NewInt(0),
-					definition.ABIPillars.PackMethodPanic(definition.RevokeMethodName, p.Name), "timed pillar.Revoke("+p.Name+")")
-			},
+			"timedRevoke": h.ActTimedPillarRevoke,
 			// cross height-based windows (fusion expiration, redeem delay)
 			"advance": func() {
 				for i, n := 0, c.Int("advance", 5, 25); i < n && !h.Dead; i++ {
